@@ -83,7 +83,8 @@ def run(ctx):
         return
     if ctx.tier == 'quick':
         cfgs = [lib.Cfg('arch', 4, '4.1', 'none', False), lib.Cfg('debian', 3, '3.0', 'enforce', False), lib.Cfg('ubuntu', 4, '4.0', 'complain', True),
-                lib.Cfg('opensuse', 3, '3.0', 'none', True), lib.Cfg('whonix', 3, '3.0', 'complain', False), lib.Cfg('ubuntu', 3, '3.0', 'none', False)]
+                lib.Cfg('opensuse', 3, '3.0', 'none', True), lib.Cfg('whonix', 3, '3.0', 'complain', False), lib.Cfg('ubuntu', 3, '3.0', 'none', False),
+                lib.Cfg('debian', 3, '4.0', 'none', False), lib.Cfg('arch', 4, '3.0', 'none', False)]       # ABI and version that disagree
         extra = lib.all_cfgs()
         cfgs += [extra[(ctx.seed * 7 + 3) % len(extra)]]
     else:
